@@ -79,7 +79,7 @@ theorem handleSuccess_body (a : Agent) (now : Nat) (m : Msg) (l r : Cand) (src :
           | some p =>
             let d := inlineSuccessDecide ((a.takePending now m.tid).1.modPair p.id fun p =>
                 { p with state := .succeeded, gResp := true, gRespUC := p.gRespUC || pd.useCand }) pd p
-            (d.1.modPair p.id fun p => { p with respRecv := p.respRecv + 1 }, d.2) := by
+            (d.1.modPair p.id (Pair.gotResponse now pd.ts), d.2) := by
   unfold Agent.handleSuccess inlineSuccessDecide
   rfl
 
@@ -173,7 +173,7 @@ theorem handleSuccess_nf (a : Agent) (now : Nat) (m : Msg) (l r : Cand) (src : N
           | some p =>
             let d := successDecide ((a.takePending now m.tid).1.modPair p.id fun p =>
                 { p with state := .succeeded, gResp := true, gRespUC := p.gRespUC || pd.useCand }) pd p
-            (d.1.modPair p.id fun p => { p with respRecv := p.respRecv + 1 }, d.2) := by
+            (d.1.modPair p.id (Pair.gotResponse now pd.ts), d.2) := by
   rw [handleSuccess_body]
   simp only [inlineSuccessDecide_eq]
 
